@@ -1,8 +1,9 @@
 """C01 — TFIM sampler and the quantum thermal state (partial by nature; see QmcProps/C01.lean)."""
+from checks import kern
 from checks import full_step
 from checks import pure_fns
 LEAN_TARGETS = ["drv_step", "QmcProofs.SamplerStep", "QmcProofs.SamplerCluster", "QmcProps.C01", "drv_c01", "QmcProps.C08", "drv_c08", "QmcProps.C09", "drv_c09", "QmcProofs.KernelInvariance", "QmcProps.C17", "drv_c17"]
-BINS = ["fullstep", "c01", "c08", "c09", "c17"]
+BINS = ["fullstep", "c01", "c08", "c09", "c17", "kern"]
 
 # Theorems of other properties that C01's claim rests on (kernel invariance of the SSE weight): they are
 # audited here too, and their correspondence modes are re-run, so that a change to the diagonal or cluster
@@ -69,6 +70,7 @@ def main(ck):
         # the reported energy is the measuring loop's -<n>/beta + offset over the sampled steps (C17 modes)
         ck.correspond("energy-measuring-loop", "drv_c17", ck.harness("c17", ["measure"]))
         ck.correspond("energy-measuring-loop-ising", "drv_c17", ck.harness("c17", ["ising"]))
+        kern.run(ck, "ising")   # exact one-step kernels of the real code on tiny systems: pi K = pi
     ck.notes.append("Kernel invariance of the SSE weight is decided by C08 (slot ratio + weight_step) and C09 (cluster move "
                     "weight-preserving, symmetric); ergodicity and L -> infinity are not theorems.")
     full_step.run(ck, modes=["ising"], audit=True)   # whole-timestep exact trajectories + preservation theorems
